@@ -293,9 +293,17 @@ def build(case):
         w.log.append(["cond", cid, w.canon_kw(kw)])
         return await abehave(orc["cond"][cid], cid, "cond")
 
+    awaitable_capture_values = set(case.get("awaitableCaptureValues", []))
+
     def cap_hook(sid, kw):
         w.log.append(["capture", sid, w.canon_kw(kw)])
-        return behave(orc["cap"][sid], sid, "capture")
+        r = behave(orc["cap"][sid], sid, "capture")
+        if is_async and sid in awaitable_capture_values and isinstance(r, V) and not isinstance(r, _AwaitableV):
+            # the captured pre-state happens to be an awaitable object (a Future, a Task): it is a VALUE, not to be awaited
+            r.__class__ = _AwaitableV
+            r._awaited_log = w.log
+            r._sid = sid
+        return r
 
     async def acap_hook(sid, kw):
         w.log.append(["capture", sid, w.canon_kw(kw)])
@@ -381,8 +389,16 @@ def build(case):
             return "H_ERR[%d]" % cid
         if k == "fac":
             args = e["fac"]["args"]
-            sig_ = ", ".join(sorted(("**varkw" if a == "varkw" else "*varargs" if a == "varargs" else a for a in args),
-                                    key=lambda t: (t.startswith("**"), t.startswith("*"))))
+            # some of the factory's parameters have defaults of their own (every second one, for even contract ids):
+            # the library must still pass the call's values
+            def _p(ix, a):
+                if a == "varkw":
+                    return "**varkw"
+                if a == "varargs":
+                    return "*varargs"
+                return "%s=H_MISSING" % a if (cid % 2 == 0 and ix % 2 == 1) else a
+            plain_ = [_p(ix, a) for ix, a in enumerate(args)]
+            sig_ = ", ".join(sorted(plain_, key=lambda t: (t.startswith("**"), t.startswith("*"), "=" in t)))
             lines.append("def fac_%d(%s):" % (cid, sig_))
             lines.append("    return H_fac(%d, dict(%s))" % (cid, ", ".join("%s=%s" % (a, a) for a in args)))
             return "fac_%d" % cid
@@ -539,6 +555,15 @@ def classify_exception(w, exc):
     if isinstance(exc, NotImplementedError):
         return ["NotImplementedError", None]
     return ["other", t.__name__, msg[:80]]
+
+
+class _AwaitableV(V):
+    """a captured value that is itself awaitable: awaiting it is observable"""
+
+    def __await__(self):
+        self._awaited_log.append(["awaited-captured-value", self._sid])
+        return 12345
+        yield
 
 
 class _AwaitableObject:
